@@ -315,10 +315,13 @@ def random_seed(s=None):
     import random
     random.seed(s)
     try: 
-        from numpy import random
-        random.seed(s)
-    except:
-        pass
+        from numpy import random as nprandom
+    except ImportError:
+        return
+    try:
+        nprandom.seed(s)
+    except (TypeError, ValueError): # not a seed for numpy, so derive one
+        nprandom.seed(random.Random(s).getrandbits(32))
     return
 
 def random_state(module='random', new=False, seed='!'):
